@@ -55,3 +55,29 @@ package blob
 //@   ensures callers-digest-kept: configured.Digest != "" ==> br.desc.Digest == configured.Digest
 //@   ensures callers-size-kept: configured.Size != 0 ==> br.desc.Size == configured.Size
 //@   ensures header-digest-only-when-none-given: br.desc.Digest == configured.Digest || configured.Digest == ""
+
+// C01 consumers inside the package: the conversions that hand blob content on as a value
+// (ToOCIConfig, RawBody) succeed only after the reader was consumed to its end by io.ReadAll - the
+// one consumption that stops on Read's io.EOF, which is where size and digest are compared - and
+// the body handed on is exactly what that call returned. A read that stops once a buffer of the
+// expected size is full never asks for the end of the stream and would skip the comparison.
+//@ ghost $cfgDrained bool
+//@ ghost $cfgBody []byte
+//@ func (*BReader).ToOCIConfig() (c, err)
+//@   prop C01
+//@   entry-assume !$cfgDrained
+//@   on-call ReadAll: $cfgDrained = (result1 == nil)
+//@   on-call ReadAll: $cfgBody = result0
+//@   ensures success-only-after-a-read-to-end-of-stream: err == nil ==> $cfgDrained
+//@ callsite WithRawBody(raw)
+//@   prop C01
+//@   name WithRawBody/ToOCIConfig
+//@   in ~/types/blob
+//@   infunc \)\.ToOCIConfig$
+//@   requires body-is-what-was-read-to-the-end: $cfgDrained && raw == $cfgBody
+//@ ghost $rawDrained bool
+//@ func (*BReader).RawBody() (b, err)
+//@   prop C01
+//@   entry-assume !$rawDrained
+//@   on-call ReadAll: $rawDrained = (result1 == nil)
+//@   ensures success-only-after-a-read-to-end-of-stream: err == nil ==> $rawDrained
